@@ -32,7 +32,7 @@ func boolTables(p *Program, rel string) (map[string]map[int]bool, []string) {
 		if b, ok := arr.Elem().Underlying().(*types.Basic); !ok || b.Kind() != types.Bool {
 			continue
 		}
-		out[g.Name()] = map[int]bool{}
+		out[cname(g)] = map[int]bool{}
 	}
 	for _, f := range p.SrcFuncs() {
 		for _, b := range f.Blocks {
@@ -53,7 +53,7 @@ func boolTables(p *Program, rel string) (map[string]map[int]bool, []string) {
 				if g == nil || g.Pkg != sp {
 					continue
 				}
-				tab, isTab := out[g.Name()]
+				tab, isTab := out[cname(g)]
 				if !isTab {
 					continue
 				}
@@ -220,7 +220,7 @@ func runC12(p *Program, r *Report) {
 			if !ok {
 				continue
 			}
-			if _, isTab := tabs[g.Name()]; isTab {
+			if _, isTab := tabs[cname(g)]; isTab {
 				chain = append(chain, step{c, f, g.Name()})
 			}
 		}
